@@ -1,0 +1,56 @@
+//go:build verif
+
+package search
+
+// Contracts for the deductive verifier in /verif (govc). Comment-only file: adds no code.
+// The recursive matching itself (next / forEach over the two child maps) is covered by the bounded stand-in of C03;
+// what is proved here is everything around it: validation, the insertion step, and the segment matcher.
+
+// Add: a route must start at the root and carry an item; the rest is inserted segment by segment below the root;
+// a duplicate route / a doubled slash are reported for the whole route.
+//@ func (*Tree).Add
+//@   prop C03
+//@   opaque add, duplicatedItem, duplicatedSlash
+//@   requires t != nil
+//@   ensures [must-start-at-the-root] len(route) == 0 || route[0] != 47 ==> result == errNotFromRoot && calls(add) == 0
+//@   ensures [must-carry-an-item] len(route) > 0 && route[0] == 47 && item == nil ==> result == errEmptyItem && calls(add) == 0
+//@   ensures [inserted-below-the-root] len(route) > 0 && route[0] == 47 && item != nil ==> calls(add) == 1 && arg(add, 0) == t.root && arg(add, 1) == strsub(route, 1, len(route)) && arg(add, 2) == item
+//@   ensures [duplicate-reported] calls(add) == 1 && ret(add) == errDuplicateItem ==> result == ret(duplicatedItem) && arg(duplicatedItem, 0) == route
+//@   ensures [double-slash-reported] calls(add) == 1 && ret(add) == errDuplicateSlash ==> result == ret(duplicatedSlash) && arg(duplicatedSlash, 0) == route
+//@   ensures [other-outcomes-passed-on] calls(add) == 1 && ret(add) != errDuplicateItem && ret(add) != errDuplicateSlash ==> result == ret(add)
+// Search: only rooted paths are looked up, from the root, without the leading slash.
+//@ func (*Tree).Search
+//@   prop C03
+//@   opaque next
+//@   requires t != nil
+//@   ensures [unrooted-is-not-found] len(route) == 0 || route[0] != 47 ==> !result1 && calls(next) == 0 && result0 == NotFound
+//@   ensures [searched-from-the-root] len(route) > 0 && route[0] == 47 ==> calls(t.next) == 1 && arg(t.next, 1) == t.root && arg(t.next, 2) == strsub(route, 1, len(route)) && result1 == ret(next)
+// match: a ':name' pattern matches any segment and binds name to it; a literal pattern matches only itself.
+//@ func match
+//@   prop C03
+//@   requires len(pat) > 0
+//@   ensures [parameter-matches-anything] pat[0] == 58 ==> result.found && result.named && result.key == strsub(pat, 1, len(pat)) && result.value == token
+//@   ensures [literal-matches-itself-only] pat[0] != 58 ==> result.found == (pat == token) && !result.named
+// getChildren: ':name' segments and literal segments live in separate maps (index 1 / 0).
+//@ func (*node).getChildren
+//@   prop C03
+//@   requires n != nil
+//@   ensures [parameters-apart-from-literals] result == ite(len(route) > 0 && route[0] == 58, n.children[1], n.children[0])
+// add (one step): the empty rest stores the item at this node (once); a rest starting with '/' is a doubled slash;
+// otherwise the first segment selects (or creates) the child in the map of its kind and the insertion continues
+// there with the remainder.
+//@ func add
+//@   prop C03
+//@   opaque add, newNode
+//@   requires n != nil && n.children[0] != nil && n.children[1] != nil
+//@   modifies n.item, mapsof(n.children[0]), mapsof(n.children[1]), node.item
+//@   ensures [end-of-route-stores-once] len(route) == 0 ==> (old(n.item) != nil ==> result == errDuplicateItem && n.item == old(n.item)) && (old(n.item) == nil ==> result == nil && n.item == item)
+//@   ensures [doubled-slash] len(route) > 0 && route[0] == 47 ==> result == errDuplicateSlash && calls(add) == 0 && calls(newNode) == 0
+//@   loop 1 invariant calls(add) == 0 && calls(newNode) == 0 && n.item == old(n.item)
+//@   ensures [existing-child-continues] calls(add) == 1 && calls(newNode) == 0 ==> result == ret(add) && arg(add, 2) == item
+//@   ensures [new-child-continues] calls(add) == 1 && calls(newNode) == 1 ==> arg(add, 0) == ret(newNode) && arg(newNode, 0) == nil && result == ret(add) && arg(add, 2) == item
+//@   let kids = ite(route[0] == 58, n.children[1], n.children[0])
+//@   ensures [last-segment-new] len(route) > 0 && route[0] != 47 && calls(add) == 0 && calls(newNode) == 1 ==> result == nil && arg(newNode, 0) == item && has(kids, route) && kids[route] == ret(newNode)
+//@   ensures [last-segment-existing] len(route) > 0 && route[0] != 47 && calls(add) == 0 && calls(newNode) == 0 && result == nil ==> old(has(kids, route)) && kids[route].item == item && old(kids[route].item) == nil
+//@   ensures [last-segment-duplicate] len(route) > 0 && route[0] != 47 && calls(add) == 0 && calls(newNode) == 0 && result != nil ==> (result == errDuplicateItem || result == errInvalidState)
+//@   ensures [continues-with-a-shorter-rest] calls(add) == 1 ==> len(arg(add, 1)) < len(route)
